@@ -278,11 +278,13 @@ CHECKS = {
           "invalidation every 10 s, two-phase drops) and judged on its last answer; after actions that change nothing an answer holding data "
           "the expectation does not is judged at once; memtable flushed only where the behaviour flushes; of the reorganisations only the "
           "out-of-order merge is reachable within seconds (level compaction needs 8 files, full compaction a 2-minute cold shard), so Compact "
-          "is that merge when out-of-order files exist; overwriting a live row is left to C02. Eight open findings (F-C13-1..8: name-scan "
-          "and or-suffix index paths skip the deleted set, pooled index searches keep another index's deleted set, DROP SERIES and the "
-          "listings ignore the retention policy, tag keys come from the schema, rows still in the WAL come back after a restart, index "
-          "entries of a dropped measurement stay listed) are re-observed and attributed only when the real answer equals the prediction of "
-          "the as-implemented world of DropSem.tla exactly (F-C13-3, nondeterministic, by its predicate on the witness database).",
+          "is that merge when out-of-order files exist; overwriting a live row is left to C02. Findings F-C13-1..8: F-C13-1, 2, 3 (name-scan and or-suffix index "
+          "paths skipped the deleted set, pooled index searches kept another index's deleted set) and F-C13-7 (rows still in the WAL came back "
+          "after a restart) were repaired by fix: commits in /repo (777f763, 5e2a4f5, a7aa822 and the DROP SERIES flush; a regression is a "
+          "violation); the open ones - F-C13-4 and F-C13-6 (DROP SERIES and the listings ignore the retention policy: the policy does not reach "
+          "the store, protocol change), F-C13-5 (tag keys come from the schema), F-C13-8 (index entries of a dropped measurement stay listed "
+          "through F-C13-6) - are re-observed and attributed only when the real answer equals the prediction of "
+          "the as-implemented world of DropSem.tla exactly.",
   "technique": "TLA+ spec (DropSem.tla) model-checked by TLC; TLC-simulated behaviours replayed over HTTP into a real single-node server with comparison of every read shape after every action",
  },
  "C15": {
